@@ -170,6 +170,9 @@ func c14streamOnce(m map[string]string) c14outcome {
 	a0, _ := srv.snapshot()
 	out.ok, out.el = c14timed(up, dl, c14query("victim", 0))
 	a1, vq := srv.snapshot()
+	if c14scriptSilent(script) {
+		a1, vq = c14settle(srv.snapshot)
+	}
 	out.dials, out.att = a1-a0, vq
 	out.leak = srv.leaks()
 	return out
@@ -279,6 +282,226 @@ func c14wstallOnce(m map[string]string) c14outcome {
 	return out
 }
 
+// ---- write stall, ordered: an exchange with an EARLIER deadline is blocked in Write (the server
+// never reads, small socket buffers), exchanges with a LATER deadline / with NO deadline are queued
+// behind it on the same connection. Each must return by its own deadline: the socket's write
+// deadline in force while an exchange is blocked in Write must be that exchange's own.
+//   case : tr=<tcp+pipeline|tls+pipeline> fault=wqueue later=<0|1> nodl=<0|1> size=65000 … dl=<ms of the first exchange>
+//   the reported elapsed time is dl + the worst (elapsed − own deadline) over the exchanges that have one
+
+func c14wqueueOnce(m map[string]string) c14outcome {
+	tr := m["tr"]
+	size, dl := atoi(m["size"]), atoi(m["dl"])
+	out := c14outcome{woke: true}
+	lc := net.ListenConfig{Control: c14smallBuf}
+	opt := upstream.Opt{TLSConfig: c14clientTLS(), Control: c14smallBuf}
+	ln := c14listenTCP(&lc)
+	var mu sync.Mutex
+	var conns []net.Conn
+	go func() {
+		for {
+			c, err := ln.Accept()
+			if err != nil {
+				return
+			}
+			mu.Lock()
+			conns = append(conns, c)
+			mu.Unlock()
+			if strings.HasPrefix(tr, "tls") {
+				go func() {
+					tc := tls.Server(c, &tls.Config{Certificates: []tls.Certificate{c14tlsCert()}})
+					c.SetDeadline(time.Now().Add(3 * time.Second))
+					tc.Handshake()
+					c.SetDeadline(time.Time{})
+				}()
+			}
+		}
+	}()
+	up, err := upstream.NewUpstream(tr+"://"+ln.Addr().String(), opt)
+	if err != nil {
+		ln.Close()
+		out.setupFailed = "newupstream"
+		return out
+	}
+	const startGap, laterBy = 100, 900 // ms
+	var wg sync.WaitGroup
+	var worst atomic.Int64 // worst (elapsed − own deadline), ns; starts very negative
+	worst.Store(-int64(time.Hour))
+	run := func(own int, q []byte) {
+		wg.Add(1)
+		go func() {
+			defer wg.Done()
+			ctx, cancel := context.WithTimeout(context.Background(), time.Duration(own)*time.Millisecond)
+			defer cancel()
+			t0 := time.Now()
+			c14do(up, ctx, q)
+			over := int64(time.Since(t0)) - int64(time.Duration(own)*time.Millisecond)
+			for {
+				old := worst.Load()
+				if over <= old || worst.CompareAndSwap(old, over) {
+					break
+				}
+			}
+		}()
+	}
+	big := make([]byte, size)
+	copy(big, c14query("victim", 0))
+	run(dl, big) // blocks in Write at once
+	time.Sleep(startGap * time.Millisecond)
+	if m["later"] == "1" {
+		run(dl+laterBy, c14query("victim", 1))
+	}
+	nodlCtx, nodlCancel := context.WithCancel(context.Background())
+	nodlDone := make(chan struct{})
+	if m["nodl"] == "1" {
+		time.Sleep(10 * time.Millisecond)
+		go func() { // no deadline at all: not measured, only there to queue behind the writer
+			c14do(up, nodlCtx, c14query("victim", 2))
+			close(nodlDone)
+		}()
+	} else {
+		close(nodlDone)
+	}
+	limit := time.Duration(dl+laterBy+startGap)*time.Millisecond + c14Slack + c14Hard
+	if c14waitTimeout(&wg, limit) {
+		out.el = time.Duration(dl)*time.Millisecond + time.Duration(worst.Load())
+	} else {
+		out.el = time.Hour // somebody with a deadline is still blocked
+	}
+	nodlCancel()
+	up.Close()
+	ln.Close()
+	mu.Lock()
+	for _, c := range conns {
+		c.Close()
+	}
+	mu.Unlock()
+	c14waitTimeout(&wg, 8*time.Second)
+	select {
+	case <-nodlDone:
+	case <-time.After(8 * time.Second):
+	}
+	return out
+}
+
+// ---- the idle deadline of a pooled connection fires while a query is in flight on it, the server
+// is healthy (it just answers after `delay` ms): the exchange must be retried on a new connection
+// and succeed.
+//   case : tr=<tcp+pipeline|tls+pipeline|udp> fault=idlefire idle=<ms> delay=<ms> … dl=<ms>
+//   tcp/tls: upstream.NewUpstream with Opt.IdleTimeout; udp: transport.NewPipelineTransport over a udp
+//   socket (NewUpstream fixes the udp idle time-out at one minute).
+//   The read deadline is armed before each read only, so it fires `idle` after the first reply; the
+//   victim is sent delay/2 before that. If the race did not happen as scripted (the victim's query
+//   was not seen on both connections) the run is repeated, a few times.
+
+func c14idlefireOnce(m map[string]string) (out c14outcome, scripted bool) {
+	tr := m["tr"]
+	idle := time.Duration(atoi(m["idle"])) * time.Millisecond
+	delay := time.Duration(atoi(m["delay"])) * time.Millisecond
+	dl := atoi(m["dl"])
+	out = c14outcome{woke: true}
+	var up c14exchanger
+	var firstReply func() time.Time
+	var victimConns func() int
+	var cleanup func()
+	if tr == "udp" {
+		pc := c14listenUDP()
+		var mu sync.Mutex
+		var t1 time.Time
+		from := map[string]bool{}
+		go func() {
+			buf := make([]byte, 4096)
+			for {
+				n, addr, err := pc.ReadFromUDP(buf)
+				if err != nil {
+					return
+				}
+				q := new(dns.Msg)
+				if q.Unpack(buf[:n]) != nil {
+					continue
+				}
+				role, _ := c14role(q)
+				rb := c14reply(q)
+				go func() {
+					time.Sleep(delay)
+					mu.Lock()
+					if role == "plain" && t1.IsZero() {
+						t1 = time.Now()
+					}
+					if role == "victim" {
+						from[addr.String()] = true
+					}
+					mu.Unlock()
+					pc.WriteToUDP(rb, addr)
+				}()
+				if role == "victim" {
+					mu.Lock()
+					from[addr.String()] = true
+					mu.Unlock()
+				}
+			}
+		}()
+		addr := pc.LocalAddr().String()
+		up = transport.NewPipelineTransport(transport.PipelineOpts{
+			DialContext: func(ctx context.Context) (net.Conn, error) {
+				return (&net.Dialer{}).DialContext(ctx, "udp", addr)
+			},
+			IsTCP: false, IdleTimeout: idle, MaxConcurrentQuery: 4096,
+		})
+		firstReply = func() time.Time { mu.Lock(); defer mu.Unlock(); return t1 }
+		victimConns = func() int { mu.Lock(); defer mu.Unlock(); return len(from) }
+		cleanup = func() { pc.Close() }
+	} else {
+		var tlsCfg *tls.Config
+		if strings.HasPrefix(tr, "tls") {
+			tlsCfg = &tls.Config{Certificates: []tls.Certificate{c14tlsCert()}}
+		}
+		srv := c14newSrv(tlsCfg)
+		srv.delay = delay
+		u, err := upstream.NewUpstream(tr+"://"+srv.addr(), upstream.Opt{TLSConfig: c14clientTLS(), IdleTimeout: idle})
+		if err != nil {
+			srv.close()
+			out.setupFailed = "newupstream"
+			return out, false
+		}
+		up = u
+		firstReply = func() time.Time { srv.mu.Lock(); defer srv.mu.Unlock(); return srv.firstDelayed }
+		victimConns = func() int { srv.mu.Lock(); defer srv.mu.Unlock(); return len(srv.victimConns) }
+		cleanup = srv.close
+	}
+	defer func() {
+		up.Close()
+		cleanup()
+	}()
+	if !c14setupExchange(up, c14query("plain", 0)) {
+		out.setupFailed = "first-exchange"
+		return out, false
+	}
+	t1 := firstReply()
+	if t1.IsZero() {
+		out.setupFailed = "first-reply-time"
+		return out, false
+	}
+	// the idle deadline fires at about t1 + idle; send the victim delay/2 before that
+	if d := time.Until(t1.Add(idle - delay/2)); d > 0 {
+		time.Sleep(d)
+	}
+	out.ok, out.el = c14timed(up, dl, c14query("victim", 0))
+	return out, victimConns() == 2
+}
+
+func c14idlefireRun(m map[string]string) c14outcome {
+	var out c14outcome
+	for i := 0; i < 4; i++ {
+		var scripted bool
+		out, scripted = c14idlefireOnce(m)
+		if scripted && out.setupFailed == "" {
+			break
+		}
+	}
+	return out
+}
+
 // ---- udp
 
 func c14udpOnce(m map[string]string) c14outcome {
@@ -346,6 +569,9 @@ func c14udpOnce(m map[string]string) c14outcome {
 	}
 	out.ok, out.el = c14timed(up, dl, c14query("victim", 0))
 	out.att = int(vq.Load())
+	if c14scriptSilent(script) {
+		out.att, _ = c14settle(func() (int, int) { return int(vq.Load()), 0 })
+	}
 	return out
 }
 
@@ -520,6 +746,10 @@ func c14faultsOnce(m map[string]string) c14outcome {
 	switch {
 	case m["fault"] == "wstall":
 		return c14wstallOnce(m)
+	case m["fault"] == "wqueue":
+		return c14wqueueOnce(m)
+	case m["fault"] == "idlefire":
+		return c14idlefireRun(m)
 	case m["tr"] == "udp":
 		return c14udpOnce(m)
 	case m["tr"] == "http" || m["tr"] == "https":
@@ -673,7 +903,20 @@ func c14faultsGen(r *rand.Rand, thorough bool, emit func(c, cat string)) {
 	cases = append(cases, c14case{fmt.Sprintf("tr=tcp+pipeline fault=wstall buf=small n=24 size=65000 loop=pipeline script=fsil obs=- dl=%d", 300+r.Intn(60)), "wstall-small-tcp"})
 	cases = append(cases, c14case{fmt.Sprintf("tr=tls+pipeline fault=wstall buf=small n=24 size=65000 loop=pipeline script=fsil obs=- dl=%d", 300+r.Intn(60)), "wstall-small-tls"})
 	cases = append(cases, c14case{fmt.Sprintf("tr=tcp+pipeline fault=wstall buf=small mix=1 n=24 size=65000 loop=pipeline script=fsil obs=- dl=%d", 240+r.Intn(40)), "wstall-mixed-deadlines"})
+	// the write deadline in force belongs to the exchange that is writing: an earlier-deadline exchange
+	// blocked in Write, later-deadline / no-deadline exchanges queued behind it
+	cases = append(cases, c14case{fmt.Sprintf("tr=tcp+pipeline fault=wqueue later=1 nodl=1 size=65000 loop=pipeline script=fsil obs=- dl=%d", 280+r.Intn(60)), "wqueue-tcp"})
+	// the idle deadline of a pooled connection fires under a query in flight, healthy (slow) server
+	cases = append(cases, c14case{fmt.Sprintf("tr=tcp+pipeline fault=idlefire idle=%d delay=300 loop=pipeline script=pfin,fok obs=- dl=2400", 480+r.Intn(60)), "idlefire-tcp"})
 	if thorough {
+		for _, tr := range []string{"tcp+pipeline", "tls+pipeline"} {
+			for _, v := range []string{"later=1 nodl=0", "later=0 nodl=1", "later=1 nodl=1"} {
+				cases = append(cases, c14case{fmt.Sprintf("tr=%s fault=wqueue %s size=%d loop=pipeline script=fsil obs=- dl=%d", tr, v, 40000+r.Intn(25000), 260+r.Intn(100)), "wqueue-" + tr})
+			}
+		}
+		for _, tr := range []string{"tls+pipeline", "udp", "tcp+pipeline"} {
+			cases = append(cases, c14case{fmt.Sprintf("tr=%s fault=idlefire idle=%d delay=%d loop=pipeline script=pfin,fok obs=- dl=2400", tr, 450+r.Intn(150), 260+r.Intn(80)), "idlefire-" + tr})
+		}
 		cases = append(cases, c14case{"tr=tls+pipeline fault=wstall buf=default n=400 size=65000 loop=pipeline script=fsil obs=- dl=350", "wstall-default-tls"})
 		cases = append(cases, c14case{"tr=tcp+pipeline fault=wstall buf=default n=400 size=65000 loop=pipeline script=fsil obs=- dl=350", "wstall-default-tcp"})
 	}
